@@ -1398,7 +1398,6 @@ bool ScriptVM::Process(ScriptContext& context, uinttime_t interruptTime)
 
             if (!GetScriptClass()->GetSelf())
             {
-                m_Stack.Push();
                 throw ScriptException("self is NULL");
             }
 
